@@ -54,8 +54,12 @@ type DirEnt struct {
 }
 
 type Op struct {
-	K    string   `json:"k"` // load unload line gc scan
+	K    string   `json:"k"` // load unload line gc scan mark
 	Prog string   `json:"prog,omitempty"`
+	// mark: Metric.ExpireDatum(Exp, Labels...) on the M-th metric of Prog's running vm
+	M      int      `json:"m,omitempty"`
+	Labels []string `json:"labels,omitempty"`
+	Exp    int64    `json:"exp,omitempty"`
 	Src  int      `json:"src,omitempty"`
 	Line string   `json:"line,omitempty"`
 	Dir  []DirEnt `json:"dir,omitempty"`
@@ -113,6 +117,8 @@ func (w *World) Run(ops []Op, omit, counters bool) *Case {
 			rt.Line(o.Line)
 		case "gc":
 			rt.Gc()
+		case "mark":
+			rt.Mark(o.Prog, o.M, o.Labels, o.Exp)
 		case "nop": // keeps the step numbering of a longer history
 		case "scan":
 			syncDir(dir, o.Dir, w.Srcs.Texts)
@@ -258,6 +264,8 @@ func (w *World) CoqOps(ops []Op) string {
 			xs[i] = vlib.App("OLine", strconv.Itoa(w.LineID(o.Line)), vlib.Z(int64(i+1)))
 		case "gc":
 			xs[i] = vlib.App("OGc", vlib.Z(2000000))
+		case "mark":
+			xs[i] = vlib.App("OMark", B(o.Prog), vlib.Nat(o.M), T(o.Labels), vlib.Z(o.Exp))
 		default:
 			panic("CoqOps: " + o.K)
 		}
